@@ -17,6 +17,8 @@ pub enum A {
     G(usize),
     /// 1 symbolic lower-case ASCII letter
     Lc,
+    /// keyword with symbolic letter case: every ASCII letter of the literal is upper or lower case (one solver bit each)
+    K(&'static [u8]),
     /// nil bulk string
     Nil,
     /// RESP integer (symbolic)
@@ -36,6 +38,12 @@ fn arg_bytes(a: A) -> Option<Vec<u8>> {
             Some(v)
         }
         A::G(n) => { let mut v = Vec::with_capacity(n); let mut i = 0; while i < n { let d = vs::u8(); vs::assume(d >= b'0' && d <= b'9'); v.push(d); i += 1; } Some(v) }
+        A::K(l) => {
+            let mut v = Vec::with_capacity(l.len());
+            macro_rules! ch { ($($i:literal)*) => { $( if l.len() > $i { let c = l[$i]; let low = vs::bool(); v.push(if low && c.is_ascii_alphabetic() { c | 0x20 } else { c }); } )* } }
+            ch!(0 1 2 3 4 5 6 7 8 9 10 11);
+            Some(v)
+        }
         A::Lc => { let d = vs::u8(); vs::assume(d >= b'a' && d <= b'z'); Some(vec![d]) }
         _ => None,
     }
